@@ -25,6 +25,8 @@ class V:
 
 
 NOREP = {"shape": [0], "common": V(0), "ents": [], "valraise": False}
+import random as _random
+ORDER_RND = _random.Random(20261003)
 
 
 def _is_pyint(c):
@@ -82,6 +84,11 @@ def canonical(iindex, dense, common):
                 continue
             rows = [r for r, x in enumerate(col.tolist()) if x == v]
             entries[(int(v),) + hc] = np.array(rows, dtype=np.uint32)
+    # a dict has an insertion order and nothing may depend on it: half of the objects get a shuffled one
+    if ORDER_RND.random() < 0.5:
+        items = list(entries.items())
+        ORDER_RND.shuffle(items)
+        entries = dict(items)
     return iindex(entries, int(common), tuple(int(s) for s in dense.shape))
 
 
